@@ -479,7 +479,7 @@ impl TrigramIndex {
     }
     pub fn prepare(&mut self, query: &TextRef, size: usize) -> (ret: Vec<usize>)
         requires old(self).wf(), text_ok(query), size <= 0x1000_0000,
-        ensures final(self).wf(), final(self).len == old(self).len, final(self).dict@ == old(self).dict@,
+        ensures final(self).wf(), final(self).len == old(self).len, final(self).dict@ == old(self).dict@, // [C01 ALL]
             // C05(a) / C06 / C03: what the candidate list is, in terms of the posting lists and the query's grams
             prepare_post(old(self).dict@, old(self).len as int, query.words@, query.chars@, size as int, ret@), // [C05 C06 C03 C04 C18]
     {
